@@ -9,6 +9,7 @@ uniform fields, terminal flux density, screening prefactor."""
 import copy
 
 import numpy as np
+from ..common import aeq  # noqa: E402
 
 from .. import build as B
 from .. import refphys as R
@@ -247,7 +248,7 @@ def run(scn):
             if u_after != u_before:
                 V.append(Violation("solution-units-changed", f"the first solution reported units {u_before}; after its options object was re-used with {where['units_b'][1:]} it reports {u_after}", **where))
             K_after = h1.solution.current_density.to("A/m").magnitude
-            if not np.array_equal(K_after, K_before):
+            if not aeq(K_after, K_before):
                 V.append(Violation("solution-output-changed", "the first solution's current density changed after its options object was re-used for another run", **where))
         if h2.outcome.startswith("rejected"):
             V.append(Violation("twin-rejected", f"the same problem stated in {where['units_b']} was rejected: {h2.exc}", **where))
